@@ -179,13 +179,16 @@ class PVManager(ComponentManager):
             request.power,
             allocations,
         )
-        self._target_power = request.power - remaining_power
         await self._set_api_power(request, allocations, remaining_power)
 
     async def _set_api_power(  # pylint: disable=too-many-locals
         self, request: Request, allocations: dict[int, Power], remaining_power: Power
     ) -> None:
         api_client = connection_manager.get().api_client
+        # The power that is being set with this request.  This must be local to the
+        # request, because requests for different sets of inverters are processed
+        # concurrently.
+        target_power = request.power - remaining_power
         tasks: dict[int, asyncio.Task[None]] = {}
         for component_id, power in allocations.items():
             tasks[component_id] = asyncio.create_task(
@@ -236,7 +239,7 @@ class PVManager(ComponentManager):
                     failed_components=failed_components,
                     succeeded_components=succeeded_components,
                     failed_power=failed_power,
-                    succeeded_power=self._target_power - failed_power,
+                    succeeded_power=target_power - failed_power,
                     excess_power=remaining_power,
                     request=request,
                 )
@@ -245,7 +248,7 @@ class PVManager(ComponentManager):
         await self._results_sender.send(
             Success(
                 succeeded_components=succeeded_components,
-                succeeded_power=self._target_power,
+                succeeded_power=target_power,
                 excess_power=remaining_power,
                 request=request,
             )
